@@ -1,38 +1,15 @@
 /-
-  Tie (C15, C20): the matcher texts and message pieces regenerated on this run by
-  `xlate failnames` are usable — every piece was recognised in the source (no `unknown:` entry,
-  so the model never silently keeps an old wording), no two matcher nodes with the same content
-  carry different texts (the lookup is by content), every matcher node of the regenerated rule
-  table has a text, and the texts derived from `grammar.peg` (the way pigeon's builder derives
-  them) are the ones written in `grammar.go`.
+  Tie (C15, C11, C10): the message pieces regenerated on this run by `xlate failnames` are usable — every
+  piece was recognised in the source (no `unknown:` entry, so the model never silently keeps an old
+  wording).  The matcher texts (grammar.peg vs grammar.go) are `Ties/MatcherTexts.lean`.
 
   Deliberately NOT compared with the pinned wording (`Bexpr/Peg/PinnedFailNames.lean`): a commit
   that rewords a message changes the model's message with it and breaks nothing.
 -/
 import BexprGen.FailNames
-import BexprGen.GoGrammar
-import BexprGen.PegGrammar
 
 namespace Bexpr.Ties.FailNames
-open Bexpr Bexpr.Peg
 
 theorem all_pieces_recognised : BexprGen.FailNames.unknowns = [] := by decide +kernel
-
-theorem no_conflicts :
-    BexprGen.FailNames.goConflicts.isEmpty = true ∧ BexprGen.FailNames.pegConflicts.isEmpty = true := by
-  decide +kernel
-
-theorem go_table_covered :
-    tableCovers BexprGen.FailNames.goWants BexprGen.GoGrammar.grammar = true := by decide +kernel
-
-theorem peg_table_covered :
-    tableCovers BexprGen.FailNames.pegWants BexprGen.PegGrammar.grammar = true := by decide +kernel
-
-theorem peg_texts_eq_go_texts :
-    tablesAgree BexprGen.FailNames.pegWants BexprGen.FailNames.goWants = true := by decide +kernel
-
-/-- non-vacuity: the tables are not empty -/
-example : BexprGen.FailNames.goWants.isEmpty = false ∧ BexprGen.FailNames.pegWants.isEmpty = false := by
-  decide +kernel
 
 end Bexpr.Ties.FailNames
